@@ -224,7 +224,7 @@ func c16CodecOf(s *vScanSection, pt string) (string, bool) {
 }
 
 // c16Oracle compares the answer with the offer, section by section.
-func c16Oracle(c *vkit.Check, memo map[string]bool, cs c16Case, offerText, answerText string) {
+func c16Oracle(c *vkit.Check, memo map[string]bool, cs c16Case, offerText, answerText, round string) {
 	offer, answer := vScanSDP(offerText), vScanSDP(answerText)
 	for i, as := range answer.Sections {
 		var os *vScanSection
@@ -260,7 +260,7 @@ func c16Oracle(c *vkit.Check, memo map[string]bool, cs c16Case, offerText, answe
 						other = "codec-offered-under-another-payload-type"
 					}
 				}
-				c.Violation(fmt.Sprintf("pt-not-offered|%s|%s/%s|variant=%s", other, as.Media, name, c16VariantClass(cs.Variant)),
+				c.Violation(fmt.Sprintf("pt-not-offered|%s|%s/%s|variant=%s%s", other, as.Media, name, c16VariantClass(cs.Variant), round),
 					fmt.Sprintf("answer section %d (%s) lists payload type %s (%s) that the offer section does not list; offer: %q answer: %q",
 						i, as.Media, pt, ac, os.Lines[0], as.Lines[0]), rep)
 
@@ -269,7 +269,7 @@ func c16Oracle(c *vkit.Check, memo map[string]bool, cs c16Case, offerText, answe
 			ac, aok := c16CodecOf(as, pt)
 			oc, ook := c16CodecOf(os, pt)
 			if aok && ook && ac != oc {
-				c.Violation(fmt.Sprintf("pt-maps-to-other-codec|%s|offer=%s|answer=%s|variant=%s", as.Media, strings.SplitN(oc, "/", 2)[0], strings.SplitN(ac, "/", 2)[0], c16VariantClass(cs.Variant)),
+				c.Violation(fmt.Sprintf("pt-maps-to-other-codec|%s|offer=%s|answer=%s|variant=%s%s", as.Media, strings.SplitN(oc, "/", 2)[0], strings.SplitN(ac, "/", 2)[0], c16VariantClass(cs.Variant), round),
 					fmt.Sprintf("answer section %d: payload type %s is %s in the offer but %s in the answer", i, pt, oc, ac), rep)
 
 				continue
@@ -368,7 +368,60 @@ func c16Run(t *testing.T, c *vkit.Check, memo map[string]bool, cs c16Case, offer
 			return
 		}
 		outcome("answered")
-		c16Oracle(c, memo, cs, offer, answer.SDP)
+		c16Oracle(c, memo, cs, offer, answer.SDP, "")
+		// second round: the same peer re-offers WITHOUT its first video codec (and the RTX that refers to it);
+		// the answer to the re-offer must not list what the re-offer no longer lists
+		if cs.Layout != "" || (cs.Variant != "remote-first" && cs.Variant != "transceiver") {
+			return
+		}
+		remote, ok := c16Remote(cs.Seq)
+		if !ok {
+			return
+		}
+		dropped := -1
+		var second []c16Codec
+		for _, r := range remote {
+			if dropped < 0 && r.Kind == "video" && !c16IsRepair(r.Name) {
+				dropped = r.PT
+
+				continue
+			}
+			if dropped >= 0 && strings.EqualFold(r.Name, "rtx") && r.Fmtp == fmt.Sprintf("apt=%d", dropped) {
+				continue
+			}
+			second = append(second, r)
+		}
+		nVideo := 0
+		for _, r := range second {
+			if r.Kind == "video" && !c16IsRepair(r.Name) {
+				nVideo++
+			}
+		}
+		if dropped < 0 || nVideo == 0 {
+			return
+		}
+		if err := pc.SetLocalDescription(answer); err != nil {
+			outcome("set-local-error")
+
+			return
+		}
+		reoffer := c16OfferText(second)
+		if len(vScanSDP(reoffer).Sections) != len(vScanSDP(offer).Sections) {
+			return // the re-offer would lose a section (audio-less list): not this round's subject
+		}
+		if err := pc.SetRemoteDescription(SessionDescription{Type: SDPTypeOffer, SDP: reoffer}); err != nil {
+			outcome("reoffer-set-remote-error")
+
+			return
+		}
+		answer2, err := pc.CreateAnswer(nil)
+		if err != nil {
+			outcome("reoffer-create-answer-error")
+
+			return
+		}
+		outcome("reoffer-answered")
+		c16Oracle(c, memo, cs, reoffer, answer2.SDP, "|reoffer")
 	})
 }
 
